@@ -202,6 +202,16 @@ Proof.
   rewrite py_float_dec by assumption. reflexivity.
 Qed.
 
+(* on a kernel record the construction of the Process object never fails, so the public
+   accessor is the accessor *)
+Theorem front_transparent {A} r st (o : outcome A) :
+  wf_kstat r = true -> fld 22 r = Some st -> is_dec st = true -> front (k_stat r) o = o.
+Proof.
+  intros H Hf Hd. use_roundtrip r H x Hx Hp F. unfold front, create_time_mono. rewrite Hp. cbn [obind].
+  destruct F as (_ & _ & _ & _ & _ & _ & _ & _ & F22 & _). rewrite Hf in F22. injection F22 as <-.
+  rewrite py_float_dec by assumption. reflexivity.
+Qed.
+
 (* a record with a hostile name satisfies the hypotheses *)
 Definition ex_kstat : kstat :=
   {| k_pid := bs "4242"; k_comm := bs "a) b) (c" ++ [10; 255] ++ bs " S 1 ";
